@@ -42,7 +42,23 @@ pub fn gen(rng: &mut Rng, idx: usize, n: usize, thorough: bool) -> String {
             5 => s.push_str(&format!(" n {i}")),
             6 => s.push_str(&format!(" h {i}")),
             7 => { let k = rng.range(0, total.min(3)); let mut vs = rng.perm(total); vs.truncate(k); s.push_str(&format!(" m {i} {k}")); for v in vs { s.push_str(&format!(" {v}")); } }
-            8 => s.push_str(&format!(" c {i} {} {}", rng.below(total as u64), rng.coin() as u8)),
+            8 if rng.coin() => s.push_str(&format!(" c {i} {} {}", rng.below(total as u64), rng.coin() as u8)),
+            8 => {
+                // a small random CNF of its own (2..4 clauses of 2..3 literals over <= 5 variables), compiled top-down
+                let nv = total.min(5).max(2);
+                let ncl = rng.range(2, 4);
+                s.push_str(&format!(" d {ncl}"));
+                for _ in 0..ncl {
+                    let len = rng.range(2, 3.min(nv));
+                    let mut vs = rng.perm(nv);
+                    vs.truncate(len);
+                    s.push_str(&format!(" {len}"));
+                    for v in vs { s.push_str(&format!(" {v} {}", rng.coin() as u8)); }
+                }
+                let k = rng.range(2, 4);
+                s.push_str(&format!(" {k}"));
+                for _ in 0..k { s.push_str(&format!(" {} {}", rng.below(nv as u64), rng.coin() as u8)); }
+            }
             _ => s.push_str(&format!(" s {i} {}", rng.range(0, total))),
         }
     }
@@ -50,7 +66,7 @@ pub fn gen(rng: &mut Rng, idx: usize, n: usize, thorough: bool) -> String {
 }
 
 #[derive(Clone, Debug)]
-enum Q { W(usize, Vec<(u64, u64)>), F(usize), E(usize, Vec<bool>), N(usize), H(usize), M(usize, Vec<u64>), C(usize, u64, bool), S(usize, usize) }
+enum Q { D(Vec<Vec<(u64, bool)>>, Vec<(u64, bool)>), W(usize, Vec<(u64, u64)>), F(usize), E(usize, Vec<bool>), N(usize), H(usize), M(usize, Vec<u64>), C(usize, u64, bool), S(usize, usize) }
 
 fn parse_queries(t: &[String], total: usize) -> Vec<Q> {
     let mut i = 1;
@@ -65,6 +81,20 @@ fn parse_queries(t: &[String], total: usize) -> Vec<Q> {
             "h" => { qs.push(Q::H(u(&t[i + 1]))); i += 2 }
             "m" => { let k = u(&t[i + 2]); let vs = (0..k).map(|j| u(&t[i + 3 + j]) as u64).collect(); qs.push(Q::M(u(&t[i + 1]), vs)); i += 3 + k }
             "c" => { qs.push(Q::C(u(&t[i + 1]), u(&t[i + 2]) as u64, t[i + 3] != "0")); i += 4 }
+            "d" => {
+                let ncl = u(&t[i + 1]);
+                let mut j = i + 2;
+                let mut cls = vec![];
+                for _ in 0..ncl {
+                    let len = u(&t[j]);
+                    cls.push((0..len).map(|x| (u(&t[j + 1 + 2 * x]) as u64, t[j + 2 + 2 * x] != "0")).collect());
+                    j += 1 + 2 * len;
+                }
+                let k = u(&t[j]);
+                let l = (0..k).map(|x| (u(&t[j + 1 + 2 * x]) as u64, t[j + 2 + 2 * x] != "0")).collect();
+                qs.push(Q::D(cls, l));
+                i = j + 1 + 2 * k
+            }
             "s" => { qs.push(Q::S(u(&t[i + 1]), u(&t[i + 2]))); i += 3 }
             _ => panic!("bad query"),
         }
@@ -96,8 +126,40 @@ fn answer<'a>(b: &'a AnyBuilder<'a>, pool: &[BddPtr<'a>], q: &Q, total: usize) -
             asg.sort();
             (format!("m{}:{}", val, asg.join(",")), None)
         }
+        Q::D(..) => ("ok".to_string(), None),
         Q::C(i, v, val) => { let r = b.condition(pool[*i], *v, *val); let mut s = String::new(); unfold(r, &mut s); (s, Some(r)) }
         Q::S(i, n) => { let r = b.smooth(pool[*i], *n); let mut s = String::new(); unfold(r, &mut s); (s, Some(r)) }
+    }
+}
+
+/// decision-DNNF conditioning (top-down compiled from the canonical CNF of the function): several
+/// conditionings with different literals on the SAME diagram and on its negation; after each the
+/// scratch of every reachable node must be empty and the answer must be the restriction
+fn dnnf_conditions(cls: &[Vec<(u64, bool)>], lits: &[(u64, bool)], k: usize, fails: &mut Vec<String>) {
+    use rsdd::builder::decision_nnf::{DecisionNNFBuilder, StandardDecisionNNFBuilder};
+    use rsdd::builder::TopDownBuilder;
+    use rsdd::repr::{Cnf, Literal, VarOrder};
+    let clauses: Vec<Vec<Literal>> = cls.iter().map(|c| c.iter().map(|(v, p)| Literal::new(VarLabel::new(*v), *p)).collect()).collect();
+    let cnf = Cnf::new(&clauses);
+    let total = cnf.num_vars();
+    let db = StandardDecisionNNFBuilder::new(VarOrder::linear_order(total));
+    let d = db.compile_cnf_topdown(&cnf);
+    for root in [d, d.neg()] {
+        let rt = table_of(root, total);
+        for (v, val) in lits {
+            if *v as usize >= total {
+                continue;
+            }
+            let r = db.condition(root, VarLabel::new(*v), *val);
+            if uncleared(root) || uncleared(r) {
+                fails.push(format!("query {k}: after decision-DNNF condition on ({v},{val}) some reachable node still has scratch data"));
+            }
+            let got = table_of(r, total);
+            let upd = |a: usize| if *val { a | (1 << v) } else { a & !(1 << v) };
+            if (0..(1usize << total)).any(|a| got[a] != rt[upd(a)]) {
+                fails.push(format!("query {k}: decision-DNNF condition on ({v},{val}) after earlier conditionings of the same diagram is not the restriction"));
+            }
+        }
     }
 }
 
@@ -131,9 +193,12 @@ pub fn run(case: &str, st: &mut Stats) -> Outcome {
         if a != a2 {
             fails.push(format!("query {k} ({q:?}) answered {a} after {k} earlier queries but {a2} on a freshly built copy"));
         }
-        st.bump(match q { Q::W(..) => "q_wmc_real", Q::F(..) => "q_wmc_ff", Q::E(..) => "q_evaluate", Q::N(..) => "q_count_nodes", Q::H(..) => "q_semantic_hash", Q::M(..) => "q_marginal_map", Q::C(..) => "q_condition", Q::S(..) => "q_smooth" });
+        if let Q::D(cls, lits) = q {
+            dnnf_conditions(cls, lits, k, &mut fails);
+        }
+        st.bump(match q { Q::D(..) => "q_dnnf_conditions", Q::W(..) => "q_wmc_real", Q::F(..) => "q_wmc_ff", Q::E(..) => "q_evaluate", Q::N(..) => "q_count_nodes", Q::H(..) => "q_semantic_hash", Q::M(..) => "q_marginal_map", Q::C(..) => "q_condition", Q::S(..) => "q_smooth" });
         // hash / MAP answers are compared with the fresh copy only (the model does not compute them)
-        outs.push(match q { Q::H(..) | Q::M(..) => "ok".to_string(), _ => a });
+        outs.push(match q { Q::H(..) | Q::M(..) | Q::D(..) => "ok".to_string(), _ => a });
     }
     // do distinct pool entries share nodes? (the interesting case for residue)
     let nontrivial = qs.len() >= 3 && pool.iter().filter(|p| matches!(p, BddPtr::Reg(_) | BddPtr::Compl(_))).count() >= 2;
